@@ -37,6 +37,27 @@ def rec_lines(out, nl):
 
 
 def cli_case(case, env):
+    """judge against the library's reading; where the template has a braced
+    reference with an odd name and that fails, judge against ripgrep's
+    documented-by-its-tests reading (the reference stands for itself): only
+    if THAT holds is the disagreement the recorded finding"""
+    cache = {}
+    found = []
+    _evaluate(case, env, cache, found, True)
+    known = False
+    if found and case["odd_braced_reference"]:
+        alt = dict(case)
+        alt["lines"] = [dict(l, replaced=l["replaced_alt"], expansions=l["expansions_alt"]) for l in case["lines"]]
+        alt["whole_input_replaced"] = case.get("whole_input_replaced_alt")
+        found_alt = []
+        _evaluate(alt, env, cache, found_alt, False)
+        known = not found_alt
+    for mode, what, d in found:
+        sig = "C19:braced-reference-with-odd-name" if known else "C19:%s" % mode
+        env.viol(sig, what, d)
+
+
+def _evaluate(case, env, cache, found, primary):
     rep = env.rep
     data = unesc(case["input"])
     path = env.write("f.txt", data)
@@ -50,27 +71,28 @@ def cli_case(case, env):
     rp = {"kind": "cli", "pattern": case["pattern"], "template": T, "args": case["args"], "input": case["input"]}
 
     def viol(mode, what, extra=None):
-        sig = "C19:%s" % mode
-        if odd:
-            sig = "C19:braced-reference-with-odd-name"
         d = dict(rp)
         d["mode"] = mode
         if extra:
             d.update(extra)
-        env.viol(sig, "pattern %r template %r %s: %s" % (case["pattern"], T, " ".join(case["args"]), what), d)
+        found.append((mode, "pattern %r template %r %s: %s" % (case["pattern"], T, " ".join(case["args"]), what), d))
 
     def run(extra):
+        key = tuple(extra)
+        if key in cache:
+            return cache[key]
         rep["evaluations"] += 1
         r = common.run_rg(base + extra + pat + [path], env.tmp, env.home)
         if r is None:
             env.inconclusive("watchdog")
         else:
             env.count("rg_runs")
+        cache[key] = r
         return r
 
     matching = [l for l in lines if l["matched"]]
     changed = any(l["replaced"] != l["content"] for l in matching)
-    if matching and changed:
+    if matching and changed and primary:
         env.nontrivial((case["pattern"], T, tuple(case["args"]), case["input"]))
     # A: -r T
     r = run(["-N", "-r", T])
